@@ -511,6 +511,38 @@ async fn exec_op(env: &Arc<Env>, c: u16, i: u16, op: Op, slots: &mut Vec<Slot>) 
             };
             end(c, i, r);
         }
+        Op::JoinPark { slot, polls } => {
+            let (tag, hk) = (tag_of(slots, slot), hk_of(slots, slot));
+            begin(c, i, OpK::JoinPark, hk, Path::NA, tag, 0, slot, polls as u64);
+            let r = if hk == Hk::Owning {
+                let Some(H::Owning(o)) = slots.get_mut(slot as usize).map(|s| &mut s.h) else { unreachable!() };
+                let mut f = o.join();
+                let mut done = None;
+                for _ in 0..polls {
+                    match futures::poll!(&mut f) {
+                        std::task::Poll::Ready(v) => {
+                            done = Some(v);
+                            break;
+                        }
+                        std::task::Poll::Pending => rt::yield_now().await,
+                    }
+                }
+                match done {
+                    Some(v) => {
+                        push(slots, Slot::empty());
+                        Res::Joined(v)
+                    }
+                    None => {
+                        let s = push(slots, Slot::mk(H::JoinFut(f), tag, c));
+                        Res::Handle { slot: s, some: true }
+                    }
+                }
+            } else {
+                push(slots, Slot::empty());
+                Res::Skipped
+            };
+            end(c, i, r);
+        }
         Op::Query { slot, running } => {
             let (tag, hk) = (tag_of(slots, slot), hk_of(slots, slot));
             begin(c, i, if running { OpK::QueryRunning } else { OpK::QueryStopped }, hk, Path::NA, tag, 0, slot, 0);
